@@ -1321,6 +1321,34 @@ def build_default_model(kind: str, mode: str, d):
     raise InfraError(kind)
 
 
+def _first_mutable(v, depth=0):
+    """the first builtin mutable container inside a default value (itself, or an element of a tuple)"""
+    if type(v) in (list, dict, set, bytearray):
+        return v
+    if type(v) is tuple and depth < 3:
+        for e in v:
+            t = _first_mutable(e, depth + 1)
+            if t is not None:
+                return t
+    return None
+
+
+def _poke(target):
+    """modify in place; -> undo"""
+    marker = "__poked__"
+    if type(target) is list:
+        target.append(marker)
+        return target.pop
+    if type(target) is dict:
+        target[marker] = 1
+        return lambda: target.pop(marker, None)
+    if type(target) is set:
+        target.add(marker)
+        return lambda: target.discard(marker)
+    target.append(7)
+    return target.pop
+
+
 def suite_e2e_defaults(ctx: Ctx, drv, defaults, kinds_per_value: int, only_kind=None):
     from adaptix import Retort
     from adaptix._internal.morphing.model.basic_gen import CodeGenAccumulator
@@ -1381,6 +1409,22 @@ def suite_e2e_defaults(ctx: Ctx, drv, defaults, kinds_per_value: int, only_kind=
             elif mode == "factory" and isinstance(x1, _MUTABLE) and x1 is x2:
                 ctx.fail("default:factory-result-shared", f"{kind}: two loads share the object produced by the default "
                          f"factory {d!r}", case)
+            else:
+                # history: load, modify the loaded object's defaulted container in place, load again with the field omitted
+                target = _first_mutable(x1)
+                if target is not None and _first_mutable(xr) is not target and _first_mutable(d) is not target:
+                    undo = _poke(target)
+                    try:
+                        o3 = loader({"r": 1})
+                        ctx.note_case(dict(case, history="load-mutate-load"), nontrivial=True, kind=f"e2e-{kind}-{mode}-mutate")
+                        if not py_same(o3.x, xr):
+                            ctx.fail("default:shared-between-loads", f"{kind} model, field omitted, after an earlier loaded "
+                                     f"object was modified in place: holds {o3.x!r}; the model itself produces {xr!r} from its "
+                                     f"declared default ({mode})", dict(case, history="load-mutate-load"))
+                    except Exception as e:  # noqa: BLE001
+                        ctx.fail("default:load-with-omitted-field-raises", f"{kind}: second load raises {type(e).__name__}", case)
+                    finally:
+                        undo()
             # ---- what the generated code does with the default (for the correspondence) ----
             src = acc.list[-1][1].source if acc.list else ""
             clause = None
